@@ -165,10 +165,10 @@ def check(ctx, otree, leaves0, odsl, cfg):  # noqa: C901, PLR0912, PLR0915
 
 
 def run_shard(ctx):
-    preds = ['none', 'is_tuple'] if ctx.tier == 'quick' else ['none', 'is_tuple', 'custom']
+    preds = ['none', 'is_tuple']
     modes = None
     e1.drive(ctx, ctx.tier, lambda tree, leaves, dsl, cfg: check(ctx, tree, leaves, dsl, cfg),
-             profile='tiny', cfgs=e1.configs(ctx.tier, predicates=preds, modes=modes))
+             profile='medium', cfgs=e1.configs(ctx.tier, predicates=preds, modes=modes))
 
 
 def replay(case, ctx):
